@@ -808,11 +808,13 @@ impl Scenario for UserLexScenario {
         }
         let n = 2 + rng.usize(7);
         for _ in 0..n {
-            let op = match rng.below(10) {
+            let op = match rng.below(11) {
                 0..=3 => Op::new("Load")
                     .n(&[rng.range(0, 3)])
                     .fault("src", gen_benign(rng, 64)),
                 4 => Op::new("Clear"),
+                // a remapping while a user lexicon is (or is not) attached
+                10 => map_op(rng, &info),
                 5 | 6 => Op::new("LoadBad").n(&[rng.range(0, 7), rng.range(0, 3)]),
                 7 => Op::new("LoadFail")
                     .n(&[rng.range(0, 3), rng.range(0, (1 << 32) - 1), *rng.pick(&[0i64, 1, 3])])
